@@ -503,6 +503,8 @@ func (e *Env) evalCall(n *ast.CallExpr) Term {
 		return eq(ifType(v), intLit(int64(e.u().typeID(t))))
 	case "dyntype":
 		return ifType(e.eval(n.Args[0]))
+	case "typeid":
+		return intLit(int64(e.u().typeID(e.typeOf(typeArgs[0]))))
 	case "strof":
 		return e.st.stringOfBytes(e.cur, e.eval(n.Args[0]))
 	case "same":
@@ -975,6 +977,10 @@ func (st *State) methodSymbol(e *Env, name string, sorts []Sort, rs Sort) string
 		vers = append(vers, sym[strings.LastIndex(sym, "@")+1:])
 	}
 	sym := "M." + name
+	for _, a := range sorts[1:] {
+		sym += "." + string(a)
+	}
+	sym += "/" + string(rs)
 	if len(vers) > 0 {
 		sym += "@" + strings.Join(vers, ".")
 	}
@@ -987,7 +993,7 @@ func (st *State) methodSymbol(e *Env, name string, sorts []Sort, rs Sort) string
 	iv := Term{fmt.Sprintf("i!l%d", st.sc.nfresh), SIface}
 	for _, k := range sortedKeys(prog.Pures) {
 		pf := prog.Pures[k]
-		if pf.Method != name || pf.RecvType == "" {
+		if pf.Method != name || pf.RecvType == "" || !prog.defMatches(st.u(), pf, sorts, rs) {
 			continue
 		}
 		rt := prog.recvTypeOf(pf)
@@ -999,7 +1005,11 @@ func (st *State) methodSymbol(e *Env, name string, sorts []Sort, rs Sort) string
 		st.emitMethodLink(e, pf, sym, rs, rt, tid)
 	}
 	// foreign implementations
-	xf := st.family("X."+name, sorts, rs)
+	xname := "X." + name + "." + string(rs)
+	for _, a := range sorts[1:] {
+		xname += "." + string(a)
+	}
+	xf := st.family(xname, sorts, rs)
 	binders := []string{fmt.Sprintf("(%s Iface)", iv.S)}
 	callArgs := []Term{iv}
 	for k, s := range sorts[1:] {
@@ -1020,13 +1030,17 @@ func (p *Program) relevantFams(ex *Exec, name string, sorts []Sort, rs Sort) []s
 		p.relCache = map[string][]string{}
 		p.relBusy = map[string]bool{}
 	}
-	if r, ok := p.relCache[name]; ok {
+	ck := name + ":" + string(rs)
+	for _, a := range sorts[1:] {
+		ck += "." + string(a)
+	}
+	if r, ok := p.relCache[ck]; ok {
 		return r
 	}
-	if p.relBusy[name] {
+	if p.relBusy[ck] {
 		return nil
 	}
-	p.relBusy[name] = true
+	p.relBusy[ck] = true
 	sc := &State{ex: ex, sc: newScript(p.Universe), vals: map[ssa.Value]Term{}, locs: map[ssa.Value]Loc{}, tuples: map[ssa.Value][]Term{}, iters: map[ssa.Value]*MapIter{}, heap: map[string]string{}, fams: map[string]*Family{}, ghost: map[string]Term{}, sliceBase: map[string]sliceBaseInfo{}}
 	sc.entry = map[string]string{}
 	sc.alloc0 = sc.sc.fresh("alloc0", SInt)
@@ -1036,7 +1050,7 @@ func (p *Program) relevantFams(ex *Exec, name string, sorts []Sort, rs Sort) []s
 		defer func() { recover() }()
 		for _, k := range sortedKeys(p.Pures) {
 			pf := p.Pures[k]
-			if pf.Method != name || pf.RecvType == "" {
+			if pf.Method != name || pf.RecvType == "" || !p.defMatches(p.Universe, pf, sorts, rs) {
 				continue
 			}
 			rt := p.recvTypeOf(pf)
@@ -1046,7 +1060,11 @@ func (p *Program) relevantFams(ex *Exec, name string, sorts []Sort, rs Sort) []s
 			sc.emitMethodLink(se, pf, "M.scratch", rs, rt, 1)
 		}
 	}()
-	set := map[string]bool{"X." + name: true}
+	xn := "X." + name + "." + string(rs)
+	for _, a := range sorts[1:] {
+		xn += "." + string(a)
+	}
+	set := map[string]bool{xn: true}
 	for fam := range sc.fams {
 		set[fam] = true
 	}
@@ -1055,8 +1073,8 @@ func (p *Program) relevantFams(ex *Exec, name string, sorts []Sort, rs Sort) []s
 		out = append(out, fam)
 	}
 	sort.Strings(out)
-	delete(p.relBusy, name)
-	p.relCache[name] = out
+	delete(p.relBusy, ck)
+	p.relCache[ck] = out
 	return out
 }
 
@@ -1071,6 +1089,24 @@ func (p *Program) methodDef(recvT types.Type, name string) *PureFunc {
 		}
 	}
 	return nil
+}
+
+// defMatches: the method definition has the parameter sorts of the call
+func (p *Program) defMatches(u *Universe, pf *PureFunc, sorts []Sort, rs Sort) bool {
+	obj := p.Pkgs[pf.PkgPath].Types.Scope().Lookup(pf.FnName)
+	if obj == nil {
+		return false
+	}
+	sig := obj.Type().(*types.Signature)
+	if sig.Params().Len() != len(sorts) || sig.Results().Len() != 1 || u.sortOf(sig.Results().At(0).Type()) != rs {
+		return false
+	}
+	for k := 1; k < sig.Params().Len(); k++ {
+		if u.sortOf(sig.Params().At(k).Type()) != sorts[k] {
+			return false
+		}
+	}
+	return true
 }
 
 func (p *Program) recvTypeOf(pf *PureFunc) types.Type {
